@@ -151,6 +151,7 @@ type env struct {
 	curAdd    int
 	forceFind int
 	shared    sourcebundle.Diagnostics // the one slice a singleton finder keeps returning
+	failFetch string                   // package whose fetch always fails (schedule-independent fault for E3)
 }
 
 // Choose returns the scripted answer at this point (0 = default).
@@ -212,6 +213,10 @@ func (f wFetcher) FetchSourcePackage(ctx context.Context, sourceType string, u *
 	p := f.w.pkg(key)
 	if p == nil {
 		return ret, fmt.Errorf("harness: unknown package %s", key)
+	}
+	if f.env.failFetch == key {
+		os.WriteFile(filepath.Join(targetDir, "partial"), []byte("x"), 0644)
+		return ret, errInjected
 	}
 	if f.env.Choose("fetch "+key, 2) == 1 {
 		// a failing fetcher may leave partial content behind
